@@ -85,7 +85,8 @@ func run(out, prop string, n int, replay string, seed uint64, tmp string) int {
 		return doReplay(replay, prop, bin, tmp)
 	}
 
-	r := hutil.NewRand(seed ^ 0xDAE404)
+	// hutil.NewRand(k) and NewRand(k+1) yield the same stream shifted by one draw: hash the seed first
+	r := hutil.NewRand(hutil.NewRand(seed ^ 0xDAE404).U64())
 	scs := make([]*scenario, n)
 	for i := range scs {
 		scs[i] = genScenario(r) // generation is sequential: deterministic in the seed
@@ -130,6 +131,7 @@ func record(sum *hutil.Summary, prop string, sc *scenario, res runResult, v verd
 	sum.Dist(fmt.Sprintf("sessions_%d", len(sc.Sessions)))
 	sum.Dist(fmt.Sprintf("phases_%d", len(sc.Phases)))
 	sum.Dist("sync_" + res.Sync)
+	sum.Dist(fmt.Sprintf("gomaxprocs_%d", sc.GoMaxProcs))
 	ws := sc.writeStats()
 	sum.Distribution["total_writes"] += ws.writes
 	sum.Distribution["total_writes_ending_mid_record"] += ws.split
